@@ -350,10 +350,12 @@ pub fn generate_c13(tier: &str, rng: &mut Rng) -> Vec<String> {
             v.push(format!("usize {ty} {}", rand_n(rng, 64)));
         }
         let w = width(ty);
-        v.push(format!("tousize {ty} {}", hex(&vec![0xffu8; w])));
+        // C13 only speaks about values that fit a machine-size integer; what a 128-bit value above
+        // usize::MAX converts to is C10's business (list-view length prefix), not C13's
+        if w <= 8 { v.push(format!("tousize {ty} {}", hex(&vec![0xffu8; w]))); }
         for _ in 0..(if thorough { 5_000 } else { 100 }) {
             let mut b = rng.bytes(w);
-            if w == 16 && rng.chance(1, 2) { for x in b[8..].iter_mut() { *x = 0; } }
+            if w == 16 { for x in b[8..].iter_mut() { *x = 0; } }
             v.push(format!("tousize {ty} {}", hex(&b)));
         }
     }
